@@ -64,6 +64,27 @@ let pstate_of s = match s with "new" -> PNew | "new-dirty" -> PNewDirty | "clean
 let pmethod_of s = match s with "bytes" -> PBytes | "load" -> PLoad | "setbytes" -> PSetBytes | "setbytes-oversize" -> PSetBytesOversize
   | "markdirty" -> PMarkDirty | "free" -> PFree | "flush" -> PFlush | _ -> failwith ("pmethod " ^ s)
 
+(* wqscript tok...   tokens: w<id> (Schedule), s (Sync), n<B> (nextCommand with a buffer of B entries)
+   output: one token per n-op: "none" or "<id,id,..>:<0|1>", then the final state "len(sched) len(fsync) pending published" *)
+let wqscript (a : string list) : string =
+  let st = ref wq_init in
+  let outs = ref [] in
+  List.iter (fun tok ->
+    let arg () = int_of_string (String.sub tok 1 (String.length tok - 1)) in
+    match tok.[0] with
+    | 'w' -> st := wq_schedule !st (nat_of_int (arg ()))
+    | 's' -> st := wq_sync !st
+    | 'n' ->
+      (match wq_next (nat_of_int (arg ())) !st with
+       | None -> outs := "none" :: !outs
+       | Some ((taken, sy), s1) ->
+         st := s1;
+         outs := (String.concat "," (List.map (fun x -> string_of_int (int_of_nat x)) taken) ^ ":" ^ (if sy then "1" else "0")) :: !outs)
+    | _ -> failwith "bad wq token") a;
+  let s = !st in
+  String.concat " " (List.rev !outs) ^ " ; " ^
+  Printf.sprintf "%d %d %d %d" (List.length s.q_sched) (List.length s.q_fsync) (int_of_nat s.q_pending) (int_of_nat s.q_published)
+
 let register (reg : string -> (string list -> string) -> unit) =
   reg "api_tx" (fun a -> match a with [s; m] -> ekind_string (tx_result (txstate_of s) (txmethod_of m)) | _ -> failwith "args");
   reg "api_page" (fun a -> match a with [ts; p; m] -> ekind_string (page_result (txstate_of ts) (pstate_of p) (pmethod_of m)) | _ -> failwith "args");
@@ -130,6 +151,7 @@ let register (reg : string -> (string list -> string) -> unit) =
       string_of_int (int_of_nat kept) ^ " " ^ bool_tok clean ^ " " ^ string_of_int (int_of_nat (ack_skips psl kept nn))
     | _ -> failwith "args");
   reg "pagescript" pagescript;
+  reg "wqscript" wqscript;
   (* lockscript s p r op... : per op the new state, or B when the op would block (state unchanged) *)
   reg "lockscript" (fun a -> match a with
     | s :: p :: r :: ops ->
